@@ -212,7 +212,7 @@ def render_v2000(M, rng, perm=None, opts=None):
     expressible = all(block_expressible(a) for a in M["atoms"])
     o = {"mode": rng.choice(["block", "lines", "both", "stale"] if expressible else ["lines", "stale"]), "group": rng.randint(1, 8),
          "zeros": rng.random() < 0.25, "dt": rng.random() < 0.5, "isodt": rng.random() < 0.3, "extra": rng.random() < 0.3,
-         "lists": rng.random() < 0.2, "trail": rng.random() < 0.25, "order": rng.choice(["cri", "irc", "mixed"]), "mmm": rng.random() < 0.5, "dd": rng.random() < 0.25}
+         "lists": rng.random() < 0.2, "trail": rng.random() < 0.25, "order": rng.choice(["cri", "irc", "mixed"]), "mmm": rng.random() < 0.5, "dd": False}
     o.update(opts or {})
     lines = [rng.choice(["", "ethanol V2000", "exported as V3000", "converted from V3000 to V2000", "M  END", "name"]), "  SPEC      0101000000",
              rng.choice(["", "checked V2000", "M  CHG  1   1   1", "comment"])]
@@ -231,7 +231,9 @@ def render_v2000(M, rng, perm=None, opts=None):
             code = rng.choice([0, 1, 3, 4, 5, 7])
         else:
             code = 0
-        # dd, the legacy mass-difference column: the reader takes isotopes from M  ISO (and D / T) only, whatever dd says
+        # dd, the legacy mass-difference column.  The properties name M  ISO and D / T only, so the renderings of a molecule keep
+        # dd = 0; the C05 stress texts (opts dd=True) put other values there: whatever the reader makes of them, the pipeline's
+        # string for the graph it returned must be a sentence
         dd = rng.choice([-1, -1, 1, 2, -3, 4]) if o["dd"] and rng.random() < 0.5 else 0
         lines.append(f"{a['x']:>10}{a['y']:>10}{a['z']:>10} {sym:<3}{dd:2d}{code:3d}  0  0  0  0  0  0  0  0  0  0")
     bl = list(M["bonds"]); rng.shuffle(bl)
